@@ -3,6 +3,8 @@
 package directory
 
 import (
+	"errors"
+
 	"github.com/lugu/qiloop/internal/zzverif/sym"
 )
 
@@ -15,13 +17,19 @@ type zzSignal struct {
 type zzSignals struct {
 	log  []zzSignal
 	slow bool // emitting takes time: other goroutines may run meanwhile
+	fail bool // the delivery to some subscriber fails: the helper reports an error (the event was emitted)
 }
+
+var errZZDelivery = errors.New("a subscriber is unreachable")
 
 func (s *zzSignals) SignalServiceAdded(id uint32, name string) error {
 	if s.slow {
 		sym.Yield()
 	}
 	s.log = append(s.log, zzSignal{true, id, name})
+	if s.fail {
+		return errZZDelivery
+	}
 	return nil
 }
 func (s *zzSignals) SignalServiceRemoved(id uint32, name string) error {
@@ -29,6 +37,9 @@ func (s *zzSignals) SignalServiceRemoved(id uint32, name string) error {
 		sym.Yield()
 	}
 	s.log = append(s.log, zzSignal{false, id, name})
+	if s.fail {
+		return errZZDelivery
+	}
 	return nil
 }
 
@@ -98,6 +109,9 @@ func c15Step(maxN int) {
 	d, sig, es := zzPreState(sym.Choose("entries", maxN+1))
 	sym.Assume(d.lastID < 0xffffffff)
 	lastID := d.lastID
+	// an unreachable subscriber makes the signal helper report an error: the transition and its
+	// (single) event are the same
+	sig.fail = sym.Bool("event-delivery-fails")
 	switch sym.Choose("op", 6) {
 	case 0: // register
 		name := sym.Str("name", sym.Choose("name-len", 2))
@@ -288,4 +302,39 @@ func C15ConcurrentSignals() {
 	_, lookupErr := d.Service("svc")
 	sym.Assert(lookupErr != nil, "signals/service-visible-after-unregister")
 	sym.Reach("signals-done")
+}
+
+// C15ConcurrentSameName: the local path and a remote client register the SAME free name at the same
+// time (with an unrelated service already registered): exactly one of them gets it.
+func C15ConcurrentSameName() {
+	sym.RacyScope("bus/directory.")
+	d := serviceDirectoryImpl()
+	d.signal = &zzSignals{}
+	_, err := d.RegisterService(zzInfo("other", 0))
+	sym.Assert(err == nil, "same-name/setup")
+	ns := d.Namespace("tcp://local")
+	done := make(chan bool, 2)
+	var idLocal, idRemote uint32
+	var errLocal, errRemote error
+	go func() {
+		idLocal, errLocal = ns.Reserve("dup")
+		done <- true
+	}()
+	go func() {
+		idRemote, errRemote = d.RegisterService(zzInfo("dup", 0))
+		done <- true
+	}()
+	<-done
+	<-done
+	sym.Assert((errLocal == nil) != (errRemote == nil), "same-name/name-held-twice-or-by-nobody")
+	holders := 0
+	for _, i := range d.staging {
+		if i.Name == "dup" {
+			holders++
+		}
+	}
+	sym.Assert(holders == 1, "same-name/holders")
+	sym.Assert(len(d.staging) == 2 && d.lastID == 2, "same-name/state")
+	_, _ = idLocal, idRemote
+	sym.Reach("same-name-done")
 }
